@@ -145,26 +145,36 @@ Proof.
 Qed.
 
 (* ------------------------------------------------------------------ C19 oracle *)
-(* a rejected group: the whole observable state is the one before; an accepted group: the
-   counters and lists grew by exactly the group *)
+(* one observed TransactionGroup call:
+   - on a corrupted evaluator: refused with ErrEvaluatorCorruptedState, nothing changed;
+   - reported failed and not marked corrupted: the whole observable state is the one before;
+   - accepted: not corrupted, and the counters and lists grew by exactly the group *)
 Lemma group_step_ok_sound sink before g : group_step_ok sink before g = true ->
-  (g_code g <> 0 -> g_snap g = before) /\
-  (g_code g = 0 ->
+  (s_corrupt before = true -> g_code g = E_CORRUPT /\ g_snap g = before) /\
+  (s_corrupt before = false -> g_code g <> 0 -> s_corrupt (g_snap g) = false -> g_snap g = before) /\
+  (s_corrupt before = false -> g_code g = 0 ->
+     s_corrupt (g_snap g) = false /\
      s_payset (g_snap g) = s_payset before + N.of_nat (List.length (g_txns g)) /\
      s_txncount before + N.of_nat (List.length (g_txns g)) <= s_txncount (g_snap g) /\
      s_txids (g_snap g) = s_txids before ++ map (fun tx => (t_txid tx, t_lv tx)) (g_txns g) /\
      s_fees before + fees_of sink (g_txns g) <= s_fees (g_snap g)).
 Proof.
-  unfold group_step_ok. destruct (g_code g =? 0) eqn:Hc; intros H.
-  - apply N.eqb_eq in Hc. split; [intros Hn; contradiction|]. intros _.
+  unfold group_step_ok. destruct (s_corrupt before) eqn:Hcb.
+  { intros H. apply andb_true_iff in H. destruct H as [H H3]. apply andb_true_iff in H. destruct H as [H1 H2].
+    apply N.eqb_eq in H1, H3. split; [|split; intros; discriminate].
+    intros _. split; [exact H1|]. now apply snap_eqb_eq. }
+  destruct (g_code g =? 0) eqn:Hc; intros H.
+  - apply N.eqb_eq in Hc. split; [intros; discriminate|]. split; [intros _ Hn; contradiction|]. intros _ _.
     repeat (apply andb_true_iff in H; destruct H as [H ?]).
     repeat match goal with
            | h : plist_eqb _ _ = true |- _ => apply plist_eqb_eq in h
            | h : (_ =? _) = true |- _ => apply N.eqb_eq in h
            | h : (_ <=? _) = true |- _ => apply N.leb_le in h
+           | h : negb _ = true |- _ => apply negb_true_iff in h
            end.
     repeat split; auto; lia.
-  - apply N.eqb_neq in Hc. split; [|intros He; contradiction]. intros _.
+  - apply N.eqb_neq in Hc. split; [intros; discriminate|]. split; [|intros _ He; contradiction].
+    intros _ _ Hca. rewrite Hca in H.
     apply andb_true_iff in H. destruct H as [H1 H2]. apply N.eqb_eq in H2. now apply snap_eqb_eq.
 Qed.
 
@@ -177,18 +187,27 @@ Qed.
 Lemma last_cons {A} (x : A) l d : last (x :: l) d = last l x.
 Proof. destruct l as [|y r]; [reflexivity|]. change (last (y :: r) d = last (y :: r) x). apply last_default. discriminate. Qed.
 
+(* spec_ok_c19 over a whole observed block: a group reported failed that did not mark the
+   evaluator corrupted left everything as it was; from the first corrupted observation on every
+   call is refused and changes nothing; and a corrupted evaluator yields no block *)
 Lemma spec_ok_c19_sound k : spec_ok_c19 k = true ->
-  forall pre g post, k_groups k = pre ++ g :: post ->
-    g_code g <> 0 -> g_snap g = last (map g_snap pre) (k_start k).
+  (forall pre g post, k_groups k = pre ++ g :: post ->
+     let before := last (map g_snap pre) (k_start k) in
+     (s_corrupt before = true -> g_code g = E_CORRUPT /\ g_snap g = before) /\
+     (s_corrupt before = false -> g_code g <> 0 -> s_corrupt (g_snap g) = false -> g_snap g = before)) /\
+  (s_corrupt (last_snap k) = true -> k_endcode k = E_CORRUPT).
 Proof.
-  unfold spec_ok_c19. generalize (k_start k) as s0. induction (k_groups k) as [|g0 r IH]; intros s0 H pre g post Heq Hc.
-  - destruct pre; discriminate.
-  - cbn [groups_ok] in H. apply andb_true_iff in H. destruct H as [H1 H2].
-    destruct pre as [|p pre'].
-    + cbn in Heq. inversion Heq. subst. cbn. now apply (group_step_ok_sound _ _ _ H1).
-    + cbn in Heq. inversion Heq. subst.
-      specialize (IH (g_snap p) H2 pre' g post eq_refl Hc). rewrite IH.
-      cbn [map]. now rewrite last_cons.
+  unfold spec_ok_c19. intros H. apply andb_true_iff in H. destruct H as [Hg He]. split.
+  - revert Hg. generalize (k_start k) as s0. induction (k_groups k) as [|g0 r IH]; intros s0 H pre g post Heq.
+    + destruct pre; discriminate.
+    + cbn [groups_ok] in H. apply andb_true_iff in H. destruct H as [H1 H2].
+      destruct pre as [|p pre'].
+      * cbn in Heq. inversion Heq. subst. cbn [map last].
+        destruct (group_step_ok_sound _ _ _ H1) as (A & B & _). split; assumption.
+      * cbn in Heq. inversion Heq. subst.
+        specialize (IH (g_snap p) H2 pre' g post eq_refl). cbn zeta in IH.
+        cbn [map]. rewrite last_cons. exact IH.
+  - intros Hc. rewrite Hc in He. cbn [negb orb] in He. now apply N.eqb_eq.
 Qed.
 
 (* ------------------------------------------------------------------ C21 oracle *)
